@@ -1,8 +1,8 @@
 (** C14 — A service address is bound to the listener the name table designates.
     Statements only; proofs are [exact] of lemmas in Proofs/FqdnProofs.v.
-    (The history part — "the table then current" — is C14_binding in Properties/C01.v's
-    state machine, see DESIGN.md.) *)
-From Xds Require Import Model.Base Model.Fqdn Proofs.FqdnProofs.
+    The history part — "the table then current" — is [C14_binding] below, a statement about the state machine of
+    Model/Sys.v (the one Properties/C01.v is about). *)
+From Xds Require Import Model.Base Model.Fqdn Model.Proto Model.Decode Model.Sys Proofs.FqdnProofs Proofs.BindingProofs.
 Open Scope string_scope.
 
 (** Expansion is idempotent, for every host string and every namespace/domain. *)
@@ -58,6 +58,20 @@ Print Assumptions C14_too_many_colons.
 Theorem C14_spec_holds_of_model : forall c t h, fq_spec (model_case c t h) = true.
 Proof. exact fq_spec_model. Qed.
 Print Assumptions C14_spec_holds_of_model.
+
+(** Over histories: whatever history [h] (name-table pushes, earlier listener pushes, reconnects, sweeps, resolutions)
+    led to the state an accepted listener push arrives in, every subscribed service address [n] is then stored with
+    exactly the listener the name table of THAT state binds it to, and with nothing when the table binds it to no
+    listener or the push does not carry that listener. *)
+Theorem C14_binding : forall c o h ver nonce p res ws n,
+  let s := final c o h in
+  s_closed s = false -> payload_type p = TLis -> decode_payload o p = Some (DMap res) ->
+  tget TLis (s_watched s) = Some ws -> smem n ws = true ->
+  sc_nds_required c = true -> n <> reserved_lds ->
+  aget n (tget TLis (s_cache (fst (step c o s (OResp ver nonce p))))) =
+    match listener_name (sc_f c) (s_table s) n with Some ln => aget ln res | None => None end.
+Proof. exact binding_after_any_history. Qed.
+Print Assumptions C14_binding.
 
 Example C14_example :
   let c := {| f_ns := "default"; f_dom := "cluster.local" |} in
